@@ -25,6 +25,15 @@ CHECKS = {
             "Trusts central differences on kink-free value grids (tolerance 1e-5 / 2e-3 float32); batch-norm running "
             "statistics re-created and dropout re-seeded per evaluation so the differentiated function is pure.",
             "DESIGN.md 4/C02"),
+    "C04": ("model-based property testing (Hypothesis) over generated histories of build/backward/retain/reset commands",
+            "Histories (command lists, shrinkable and replayable) over shared leaves - build expressions over any "
+            "earlier node, backward from any node incl. leaves/former roots/interior nodes inside or outside "
+            "retain_grads, retain_grad, and the three reset paths - are run next to a model of the expected leaf "
+            "gradient (sum of finite-difference VJP contributions since the last reset); compared after every step; "
+            "unreachable leaves must be byte-identical.",
+            "Contributions come from finite differences of a NumPy re-evaluation of the recorded smooth expressions; "
+            "retained non-leaf gradients are not asserted.",
+            "DESIGN.md 4/C04"),
     "C05": ("property-based differential testing (Hypothesis) against independent NumPy reference models",
             "Generated-input search over every tensor op, constructor and iteration pattern; results are compared "
             "(shape exactly, values bit-exactly for data movement / to rounding for arithmetic) with an independent "
@@ -41,6 +50,13 @@ CHECKS = {
             "Trusts the reference models in synverif/nnops.py and ref_conv.py; tolerance 1e-4*scale float32, "
             "1e-10*scale float64, bit-exact for max-pool/unfold.",
             "DESIGN.md 4/C06"),
+    "C07": ("model-based property testing (Hypothesis) over generated tree-structured programs",
+            "Programs with nested with-blocks (fresh, stored-and-entered-later, re-used context objects), try/raise, "
+            "leaf creation in three dtypes, ops, flag toggles, retain_grad and backward are interpreted with real "
+            "`with` statements next to an explicit stack model of (grad enabled, retain all) and of every tensor's "
+            "requires_grad/is_leaf/grad_fn; a probe after every context exit checks the restored mode.",
+            "Does not generate nested re-entry of the same context object; mixed retain cases are recorded, not asserted.",
+            "DESIGN.md 4/C07"),
     "C09": ("property-based differential testing (Hypothesis) against high-precision stable reference formulas",
             "Generated-input search over float32/float64 inputs up to 1e4 (exp-overflow thresholds salted in) and "
             "logit rows with spreads up to 2e4 for sigmoid/tanh/selu/softmax/log_softmax/cross-entropy/"
